@@ -39,4 +39,9 @@ Shape(n, tk) ==
     [] n[1] \in Funs -> <<FnName(tk[n[2]].fn)>> \o [i \in 1..Len(n[3]) |-> Shape(n[3][i], tk)]
     [] n[1] = "imul" -> <<"Multiply", Shape(n[2], tk), Shape(n[3], tk)>>
     [] OTHER -> <<OpName(n[1]), Shape(n[2], tk), Shape(n[3], tk)>>
+
+\* the same tree as its preorder list of <<variant, number of children>> (what the recorded events carry: flat, whatever the depth)
+RECURSIVE Flat(_), FlatSeq(_)
+Flat(s) == <<<<s[1], Len(s) - 1>>>> \o FlatSeq(SubSeq(s, 2, Len(s)))
+FlatSeq(ss) == IF ss = <<>> THEN <<>> ELSE Flat(Head(ss)) \o FlatSeq(Tail(ss))
 =============================================================================
